@@ -55,6 +55,15 @@ NOTES.update({
 NOTES.update({
  "w6-C18-m2": "missed at first: images for the QR multi reader held one symbol, so no candidate was ever dropped; images with two or three symbols (one sometimes blotted) added; oracle (c) then sees the diagnostic variable change",
 })
+NOTES.update({
+ "w7-C05-m1": "missed at first: every decode used a fresh decoder object; chains of damaged symbols of different shapes through one long-lived decoder pair added (reported with the minimised list of symbols decoded before)",
+ "w7-C10-m1": "missed at first: Code 93 faults were single substitutions, which K always notices; damage with K recomputed over the damaged data + C (only C can notice) added",
+ "w7-C10-m3": "missed at first: a writer output carrying other body digits than requested was counted as 'outside the check position' and skipped; a well-formed symbol of another number is now a failure (no check digit was computed for the requested number)",
+ "w7-C11-m1": "first run: exit 2 (one of two failing classes depends on sync.Pool contents and did not reproduce; the other was confirmed by the shard-prefix replay but the unconfirmed one decided the exit code) -> a confirmed violation now decides; then caught",
+ "w7-C16-m2": "NOT decided: needs SetBulk with an index that is not a multiple of 32, where the documented meaning (bits i..i+31) and the word store the unchanged code performs disagree; the check passes word-aligned indices only (stated assumption)",
+ "w7-C17-m3": "missed at first (the trigger is a reader call, the observation point is BinaryBitmap.GetBlackMatrix): the binarise step now hands the bitmap to one to three readers with random hints and asks for the matrix again",
+ "w7-C18-m3": "missed at first: readers were given PURE_BARCODE / TRY_HARDER only; task-private hint maps with CHARACTER_SET, ALSO_INVERTED, ASSUME_GS1 added to the QR, Data Matrix and Aztec read operations",
+})
 rows=[]
 for d in sorted(glob.glob('/verif/seeded/*/')):
     name=os.path.basename(d.rstrip('/'))
